@@ -88,7 +88,13 @@ namespace fastscapelib
     {
         if (m_paused)
         {
-            m_cv.notify_all();
+            {
+                // a worker holds the mutex from the moment it counts itself as
+                // paused until it actually waits: taking it here ensures that no
+                // worker misses the notification
+                std::unique_lock<std::mutex> lk(m_cv_m);
+                m_cv.notify_all();
+            }
             m_paused = false;
             wait();
         }
